@@ -3,7 +3,6 @@ from ..common import hx
 from .. import registry
 from .gens import key_for, blocks_for
 
-LEVEL = "exploration"
 RULE = ("boundary-heavy keys/blocks (all-ones, 0x80.., 0x7f.., single bits, IDEA operands 0/1/ffff/8000, rotation amounts = 0 "
         "mod w) and random ones for every registry type and every accepted key length, single-block both directions, batches, "
         "BelT wide block lengths 32..=300; executed in the dev profile (overflow checks + debug assertions) and in release, "
